@@ -450,6 +450,32 @@ func textEq(t tcell, s string) string {
 	return ""
 }
 
+// duckBlobDecode inverts DuckDB's CAST(blob AS VARCHAR): printable ASCII except \ ' " stands for itself,
+// \xHH for any byte. ok=false when s is not in that form.
+func duckBlobDecode(s string) ([]byte, bool) {
+	out := []byte{}
+	for i := 0; i < len(s); i++ {
+		c := s[i]
+		switch {
+		case c == '\\':
+			if i+3 >= len(s) || s[i+1] != 'x' {
+				return nil, false
+			}
+			v, err := strconv.ParseUint(s[i+2:i+4], 16, 8)
+			if err != nil {
+				return nil, false
+			}
+			out = append(out, byte(v))
+			i += 3
+		case c >= 32 && c <= 126 && c != '\'' && c != '"':
+			out = append(out, c)
+		default:
+			return nil, false
+		}
+	}
+	return out, true
+}
+
 // ---------------------------------------------------------------- JSON cell rule
 
 // checkJSON returns "" when decoded JSON value v is an acceptable encoding of truth cell t.
@@ -496,6 +522,12 @@ func checkJSON(t tcell, v any) string {
 		s, ok := v.(string)
 		if !ok {
 			return fmt.Sprintf("want string got %#v", v)
+		}
+		if t.kind == "bin" {
+			// documented conversion for types without a native JSON encoding: DuckDB's BLOB text form
+			if b, ok := duckBlobDecode(s); ok && bytes.Equal(b, t.s) {
+				return ""
+			}
 		}
 		if !utf8.Valid(t.s) {
 			return fmt.Sprintf("bytes %x are not valid UTF-8: no JSON string can denote them (decoder saw %q)", t.s, s)
